@@ -1,11 +1,115 @@
 package main
 
+// Property checks: which rules decide which property (DESIGN.md §4).
+
+var commonAssumptions = []string{
+	"the Go toolchain's parser/type checker (go/packages, go/types) model the generator source correctly",
+	"third-party and standard-library code called by the generator (go/loader, go/format, gotool, sort, fmt) behaves as documented",
+}
+
 func init() {
+	checks["C01"] = &checkDef{
+		run: func(c *Ctx) {
+			runG11(c.Repo, c.Rep)
+			runG1(c.Repo, c.Rep)
+			g8Registry(c)
+			c.Rep.floor("G11", 6)
+			c.Rep.floor("G1", 350)
+			runR_C01(c)
+		},
+		explanation: "Structural necessary conditions of C01 decided statically: (G11) the work list cannot report success before every generator is Done and name lookup answers only under the type comparison; (G1) no generator error is dropped or swallowed; (G8) every plugin is registered once and every deps[...] key is bound; (Engine R) every accepted abstract run of every plugin emits text that parses and gofmt-s (R1), refers only to holes / universe names / identifiers it declares (R2), uses exactly the imports it requested (R3), marks what it generates (Generating must-pass-through) and, where kinds are determined, type-checks against the documented helper signatures (R4, thorough). Not decided: import-alias collisions, the multi-pass reload loop, _test files, shapes beyond the stated bounds.",
+		assumptions: commonAssumptions,
+		technique:   "custom static analysis: CFG dominance lints over the driver + abstract interpretation of plugins into residual programs checked with go/parser, go/format and go/types",
+	}
+	checks["C07"] = &checkDef{
+		run: func(c *Ctx) {
+			runG4(c.Repo, c.Rep)
+			runG10(c.Repo, c.Rep)
+			c.Rep.floor("G4", 10)
+			c.Rep.floor("G10", 9)
+		},
+		explanation: "Decides the mechanisms C07's anchors name, each a necessary condition: the derived file is written with a truncating os.Create on a path that comes only from (*pkg).Filename(), the same constant is what discovery excludes (G4); every successful return of generatePackage has passed through Print (HasContent) or Delete (otherwise) (G10 must-pass-through on the CFG); the loader tolerates type errors and an unparsable derived file; files named derivedFilename are excluded from call discovery, names resolved into it are re-queued and never reserved; no user file is skipped when listing package files (G10). Not decided: byte identity across histories; in particular argument types of nested derive calls come from the stale file's signatures (documented genuine defect, out of static reach).",
+		assumptions: commonAssumptions,
+		technique:   "custom static analysis: who-may-call table, path provenance, go/cfg must-pass-through and exclusion (reachability/dominance) rules",
+	}
+	checks["C08"] = &checkDef{
+		run: func(c *Ctx) {
+			runG6(c.Repo, c.Rep)
+			c.Rep.floor("G6", 8)
+		},
+		explanation: "G6: every range over a Go map in main/derive/plugin/* is classified (insert-only / constant reduction / append-then-sort are order-insensitive; first-match returns, emission or unsorted appends are violations); no package-level variable is written outside main/init and no package-level reference value escapes into per-package state; no clock/random/environment/goroutine input; printers, qualifiers, type tables and generators are constructed in newPackage only. Not decided: ordering inside go/loader and gotool (third-party), path-spelling independence, timing.",
+		assumptions: commonAssumptions,
+		technique:   "custom static analysis: typed-AST classification of map iterations, global-state and nondeterministic-input lint, who-may-call for constructors",
+	}
 	checks["C09"] = &checkDef{
 		run: func(c *Ctx) {
 			runG1(c.Repo, c.Rep)
+			c.Rep.floor("G1", 350)
+			runR_C09(c)
 		},
-		explanation: "G1 error discipline",
-		technique:   "custom AST/CFG lint",
+		explanation: "G1: every error-returning call in main/derive/plugin/* (412 on the pinned tree) is returned, or tested with the non-nil branch ending in a non-nil error return / fatal exit; drops, blank assignments, swallows (`if err != nil { return nil }`) and error branches that stay inside a work loop are violations. Engine R: no abstract run of any plugin (including runs Add rejects) hits a definite generator panic (index out of the established length, unchecked type assertion on an unrefined kind, Out underflow, explicit panic); no accepted run emits unparsable text; unsupported constituents (chan/func/interface) at every position of the structural plugins end in generator-error runs; operators are emitted only for kinds that support them. Not decided: termination of the reload loop, panics inside third-party code, broken user files.",
+		assumptions: commonAssumptions,
+		technique:   "custom static analysis: CFG-based error-flow lint + abstract interpretation of plugin Add/Generate with definite-panic detection",
 	}
+	checks["C10"] = &checkDef{
+		run: func(c *Ctx) {
+			runG4(c.Repo, c.Rep)
+			runG5(c.Repo, c.Rep)
+			g7Table(c)
+			c.Rep.floor("G4", 10)
+			c.Rep.floor("G5", 6)
+		},
+		explanation: "G4: file-system effects are reachable only from (*pkg).Print (os.Create), (*pkg).Delete (os.Remove) and newPackage (os.OpenFile); no plugin and no other driver function references a mutating os/ioutil/exec/syscall member or handles an *os.File; paths come from Filename(); every open-for-write truncates; the source rewrite sits under a per-file guard that is reset for every file and can only be set inside `name != call.Name` after the no-flag panic. G5: the user's syntax tree is mutated at exactly one site (call.Expr.Fun = ast.NewIdent(name returned by Add)); comments are parsed; the file is re-printed whole from its own tree into its own path. G7: without flags SetFuncName can only return the requested name or fail. Not decided: byte-exactness of go/format, partial writes on I/O errors.",
+		assumptions: commonAssumptions,
+		technique:   "custom static analysis: effect ownership (who-may-call), constant-flag evaluation, CFG guards, AST-store inventory",
+	}
+	checks["C11"] = &checkDef{
+		run: func(c *Ctx) {
+			runG7(c.Repo, c.Rep)
+			runG11(c.Repo, c.Rep)
+			c.Rep.floor("G7", 40)
+		},
+		explanation: "G7: SetFuncName's structured control flow is enumerated path by path over the atoms {name-of-types hit, hit==requested, requested bound, bound types eq, dedup, autoname}; each of the 36 consistent states must yield exactly the outcome the property prescribes (requested / existing only with -dedup / fresh only with -autoname / error / register in both tables). newName returns a candidate that was tested after its last update against both funcToTyps and reserved, built from the current prefix; GetFuncName registers exactly the name it returns; the reserved set is complete before any table uses it; nameOf answers only under eq (G11). Not decided: eq uses assignability rather than identity (outside the property's pairwise-non-assignable quantifier); type-correctness after renaming (C01).",
+		assumptions: commonAssumptions,
+		technique:   "custom static analysis: decision-table extraction by path enumeration over the typed AST, loop-exit and dominance rules",
+	}
+	checks["C12"] = &checkDef{
+		run: func(c *Ctx) {
+			runG8(c.Repo, c.Rep)
+			c.Rep.floor("G8", 150)
+			runR_C12(c)
+		},
+		explanation: "G8: 33 NewPlugin registrations with unique names, unique default prefixes each starting with exactly one \"derive\" (so -prefix substitution is a pure renaming), all listed once in main, all deps keys bound; SetPrefix only from main before NewPlugins; the prefix is strings.Replace(default,\"derive\",*prefix,1) or the verbatim override; NewPlugins sorts before storing; the sort comparator is tabulated over the finite orderings of (length, string) and must be longest-first, irreflexive, asymmetric, total on equal lengths, and may index only the slice being sorted; both dispatch loops iterate the sorted slice and leave at the first match. Engine R: no residual contains a literal identifier starting with a registered default prefix; emitted function and helper names are NAME/FUNC holes (equivariance under the prefix map). Not decided: textual identity of two runs.",
+		assumptions: commonAssumptions,
+		technique:   "custom static analysis: registry extraction, abstract evaluation of the comparator over a finite ordering table, CFG first-match rule, residual scope lint",
+	}
+}
+
+func g8Registry(c *Ctx) {
+	regs := pluginRegistry(c.Repo, c.Rep)
+	names := map[string]bool{}
+	for _, g := range regs {
+		names[g.name] = true
+	}
+	if len(regs) >= 33 {
+		c.Rep.pass("G8")
+	} else {
+		c.Rep.fail(Finding{Rule: "G8", Key: "G8|registry-size", Kind: "undecided", Msg: "fewer than 33 plugin registrations found"})
+	}
+}
+
+// g7Table: the part of G7 that C10 relies on (without flags a name never changes).
+func g7Table(c *Ctx) {
+	sub := newReport(c.Rep.Property, c.Rep.Tier)
+	runG7(c.Repo, sub)
+	for _, f := range sub.Findings {
+		c.Rep.fail(f)
+	}
+	c.Rep.mu.Lock()
+	c.Rep.Obligations += sub.Discharged
+	c.Rep.Discharged += sub.Discharged
+	st := c.Rep.stat("G7")
+	st.Obligations += sub.Discharged
+	st.Discharged += sub.Discharged
+	c.Rep.mu.Unlock()
 }
